@@ -8,7 +8,7 @@ line of the include tag as its start line, so its nodes move with the tag. Here 
 handler answers alike — same output, same status and failures up to the line of a located error — for two lines of the tag that
 are zero together. It holds for the engine's handler at every fuel (`incRel_incFuel`), because compiling a source text at another
 start line moves its lines and nothing else (`compileSource_shift`), and then the render of the moved tree is related by the very
-theorem being proved (induction on the fuel).
+statement being proved (induction on the fuel).
 -/
 
 /-- the include handler, called for an include tag at two lines that are zero together, answers alike up to the lines of errors -/
